@@ -80,8 +80,8 @@ class G:
     # ---------------------------------------------------------------- statements
     def program(self):
         cls = self.ch(QCLS)
-        kind = self.ch(["select", "select", "select", "insert", "insert", "update", "update", "delete", "create", "drop",
-                        "setop"])
+        kind = self.ch(["select", "select", "select", "select", "insert", "insert", "insert", "update", "update", "delete",
+                        "delete", "create", "create", "drop", "setop", "setop"] + (["load"] if self.p(0.3) else []))
         mode = "main"
         r = self.rng.random()
         if r < 0.1:
@@ -91,6 +91,9 @@ class G:
         if kind == "delete" and mode == "main" and self.p(0.35):
             mode = "entry"  # delete() itself becomes one of the scheduled calls
         self.tail = []
+        self.cls = cls
+        if kind == "load":
+            cls = self.cls = "MySQLQuery"
         actors = getattr(self, "k_" + kind)(cls, mode)
         actors = [a for a in actors if a["calls"]]
         C = {"t": "cls", "name": cls}
@@ -114,8 +117,15 @@ class G:
             entry = {"t": "meth", "x": q1, "m": self.ch(ops), "a": [q2]}
         elif kind == "create":
             entry = {"t": "meth", "x": C, "m": "create_table", "a": ["t_new"]}
+        elif kind == "load":
+            entry = {"t": "new", "c": "MySQLLoadQueryBuilder"}
         else:
             entry = {"t": "meth", "x": C, "m": "drop_table", "a": ["t_old"]}
+        if mode == "main" and kind in ("select", "update") and self.p(0.08):
+            # Table.select()/Table.update(): entry points that go through the table's remembered query class
+            tq = {"t": "table", "name": "a", "qc": cls}
+            entry = {"t": "meth", "x": tq, "m": "select", "a": [F(TA, "id")]} if kind == "select" else \
+                {"t": "meth", "x": tq, "m": "update", "a": []}
         if mode == "entry":
             if kind in ("select", "update") or (kind == "insert" and entry["m"] == "from_"):
                 # the entry call is itself one of the scheduled calls (its FIFO: into before from_ for INSERT..SELECT)
@@ -136,16 +146,53 @@ class G:
                 mode = "main"
         return {"cls": cls, "kind": kind, "mode": mode, "entry": entry, "actors": actors, "tail": self.tail}
 
-    def join_call(self, base_tbl, jt, how=None):
+    def join_call(self, base_tbl, jt, how=None, variety=False):
         item = dict(jt)
         item["fresh"] = True
+        if variety and self.p(0.4):
+            v = self.ch(["using", "cross", "on_field", "subq", "cte", "self", "usubq"])
+            if v == "self":
+                # joining the FROM table to itself: the library aliases the joined occurrence "<name>2"
+                me = dict(base_tbl)
+                me["fresh"] = True
+                return {"m": "join", "item": me, "how": how, "fin": "on",
+                        "a": [{"t": "bin", "op": "eq", "l": F(base_tbl, "id"), "r": F(base_tbl, self.ch(COLS))}]}
+            if v == "usubq":
+                # un-aliased sub-query: the library assigns sqN
+                return {"m": "join", "item": self.subq(self.cls), "how": how, "fin": "using", "a": ["x"]}
+            if v == "using":
+                return {"m": "join", "item": item, "how": how, "fin": "using",
+                        "a": [self.ch(COLS)] + ([self.ch(COLS)] if self.p(0.3) else [])}
+            if v == "cross":
+                return {"m": "join", "item": item, "how": None, "fin": "cross", "a": []}
+            if v == "on_field":
+                # resolved against the first FROM source at call time (rejected while there is none)
+                return {"m": "join", "item": item, "how": how, "fin": "on_field", "a": [self.ch(COLS)]}
+            if v == "subq":
+                sub = {"t": "meth", "x": self.subq(self.cls), "m": "as_", "a": ["sj"]}
+                return {"m": "join", "item": sub, "how": how, "fin": "on",
+                        "a": [{"t": "bin", "op": "eq", "l": F(base_tbl, self.ch(COLS)), "r": F(sub, "x")}]}
+            cte = {"t": "new", "c": "AliasedQuery", "a": ["cte1"]}
+            return {"m": "join", "item": cte, "how": how, "fin": "on",
+                    "a": [{"t": "bin", "op": "eq", "l": F(base_tbl, self.ch(COLS)), "r": F(cte, "x")}]}
         return {"m": "join", "item": item, "how": how, "fin": "on",
                 "a": [{"t": "bin", "op": "eq", "l": F(base_tbl, self.ch(COLS)), "r": F(jt, self.ch(COLS))}]}
 
+    def sel_arg(self, mode):
+        """One argument of select(): expression, string shorthand, or a star (which absorbs: select list semantics
+        of `*` and `t.*` are the library's documented de-duplication, same in every delivery order)."""
+        r = self.rng.random()
+        if r < 0.06:
+            return {"t": "star", "tbl": TA} if self.p(0.6) else {"t": "star", "tbl": TA, "via": "prop"}
+        if mode == "main" and r < 0.10:
+            return "*"
+        if mode == "main" and r < 0.28:
+            return self.ch(COLS)
+        return self.expr(TA)
+
     def k_select(self, cls, mode):
         A = []
-        sel = [{"m": "select", "a": [(self.ch(COLS) if (mode == "main" and self.p(0.2)) else self.expr(TA))
-                                     for _ in range(self.rng.randint(1, 2))]}
+        sel = [{"m": "select", "a": [self.sel_arg(mode) for _ in range(self.rng.randint(1, 2))]}
                for _ in range(self.rng.randint(1, 3))]
         if self.p(0.3):
             # duplicates in the select list are legal and stay (DISTINCT is a flag, not a call-time de-duplication)
@@ -161,22 +208,29 @@ class G:
             A.append({"group": "modifier", "calls": [{"m": "modifier", "a": [x]} for x in
                                                       ["SQL_CALC_FOUND_ROWS", "HIGH_PRIORITY"][: self.rng.randint(1, 2)]]})
         if cls == "PostgreSQLQuery" and self.p(0.4):
-            A.append({"group": "distinct_on", "calls": [{"m": "distinct_on", "a": [F(TA, self.ch(COLS))]}
+            A.append({"group": "distinct_on", "calls": [{"m": "distinct_on", "a": [self.ch(COLS) if (mode == "main" and self.p(0.3))
+                                                                                       else F(TA, self.ch(COLS))]}
                                                          for _ in range(self.rng.randint(1, 2))]})
         if self.p(0.25):
-            A.append({"group": "from2", "calls": [{"m": "from_", "a": [TD]}]})
+            A.append({"group": "from2", "calls": [{"m": "from_", "a": [self.from_item(cls)]}]})
         if self.p(0.5):
-            js = [self.join_call(TA, TB, self.jt())]
+            js = [self.join_call(TA, TB, self.jt(), variety=(mode != "cross"))]
             if self.p(0.4):
-                js.append(self.join_call(self.ch([TA, TB]), TC, self.jt()))
+                js.append(self.join_call(self.ch([TA, TB]) if js[0]["fin"] == "on" and js[0]["item"].get("t") == "table" else TA,
+                                         TC, self.jt(), variety=(mode != "cross")))
             A.append({"group": "join", "calls": js})
         if self.p(0.7):
             A.append({"group": "where", "calls": [{"m": "where", "a": [self.crit(TA)]} for _ in range(self.rng.randint(1, 3))]})
         if cls == "Query" and self.p(0.15):
-            A.append({"group": "prewhere", "calls": [{"m": "prewhere", "a": [self.crit(TA)]}]})
+            A.append({"group": "prewhere", "calls": [{"m": "prewhere", "a": [self.crit(TA)]}
+                                                      for _ in range(self.rng.randint(1, 2))]})
         if self.p(0.4):
             g = [{"m": "groupby", "a": [self.name_or_field(TA) if mode == "main" else F(TA, self.ch(COLS))]}
                  for _ in range(self.rng.randint(1, 2))]
+            if self.p(0.25):
+                # group by a term that carries the alias of a selected term (rendered as the alias or as the term,
+                # depending on the dialect's groupby_alias)
+                g.append({"m": "groupby", "a": [F(TA, self.ch(COLS), alias=self.ch(["k1", "s1"]))]})
             if cls in ("Query", "PostgreSQLQuery", "OracleQuery") and self.p(0.35):
                 # rollup() calls anywhere in the FIFO: adjacent ones merge into one ROLLUP(...), others stay separate items
                 for _ in range(self.rng.randint(1, 2)):
@@ -199,13 +253,16 @@ class G:
                 kw["of"] = {"t": "v", "k": "tuple", "v": ["a", "b"][: self.rng.randint(1, 2)]}
             if self.p(0.3):
                 kw["nowait"] = True
+            elif self.p(0.3):
+                kw["skip_locked"] = True
             A.append({"group": "lock", "calls": [{"m": "for_update", "a": [], "kw": kw}]})
         if cls in ("Query", "MySQLQuery") and self.p(0.2):
             A.append({"group": "force_index", "calls": [{"m": "force_index", "a": [self.ch(["ix1", "ix2"])]} for _ in range(self.rng.randint(1, 2))]})
         if cls in ("Query", "MySQLQuery") and self.p(0.15):
             A.append({"group": "use_index", "calls": [{"m": "use_index", "a": ["ix3"]}]})
         if self.p(0.2):
-            A.append({"group": "with", "calls": [{"m": "with_", "a": [self.subq(cls), "cte1"]}]})
+            A.append({"group": "with", "calls": [{"m": "with_", "a": [self.subq(cls), n]}
+                                                  for n in ["cte1", "cte2"][: self.rng.randint(1, 2)]]})
         if mode == "cross" and self.p(0.7):
             # a term of one actor names a source that another actor introduces
             A = [a for a in A if a["group"] != "where"]
@@ -215,11 +272,29 @@ class G:
         return A
 
     def name_or_field(self, tbl):
-        """String shorthand (resolved against the entry point's FROM table, which is fixed in the main mode) or a
-        Field; the strings include names that are also aliases of selected terms."""
+        """String shorthand (resolved against the entry point's FROM table, which is fixed in the main mode), a
+        position number, or a Field; the strings include names that are also aliases of selected terms."""
         if self.p(0.45):
             return self.ch(COLS + ["k1", "s1", "s2"])
+        if self.p(0.1):
+            return self.ch([1, 2])
         return F(tbl, self.ch(COLS))
+
+    def from_item(self, cls):
+        """A second FROM source: table, schema-qualified table, temporal table, aliased or un-aliased sub-query."""
+        r = self.rng.random()
+        if r < 0.45:
+            return TD
+        if r < 0.55 and cls != "SQLLiteQuery":
+            crit = {"t": "meth", "x": {"t": "const", "name": "SYSTEM_TIME"}, "m": "as_of", "a": ["2020-01-01"]} if self.p(0.6) else \
+                {"t": "meth", "x": {"t": "const", "name": "SYSTEM_TIME"}, "m": "between", "a": ["2020-01-01", "2021-01-01"]}
+            return {"t": "table", "name": "d", "for": crit}
+        if r < 0.7:
+            return {"t": "table", "name": "d", "schema": "s"}
+        sub = self.subq(cls)
+        if r < 0.85:
+            return {"t": "meth", "x": sub, "m": "as_", "a": ["sq9"]}
+        return sub  # the library assigns sq0
 
     def jt(self):
         return {"t": "enum", "c": "JoinType", "v": self.ch(["inner", "left", "cross", "right"])} if self.p(0.5) else None
@@ -265,9 +340,25 @@ class G:
             A.append({"group": "select", "calls": [{"m": "select", "a": [F(TB, self.ch(COLS))]} for _ in range(self.rng.randint(1, 2))]})
             if self.p(0.5) and mode != "cross":
                 A.append({"group": "where", "calls": [{"m": "where", "a": [self.crit(TB)]}]})
+            if cls in ("Query", "PostgreSQLQuery", "SQLLiteQuery") and mode == "main" and self.p(0.35):
+                # upsert fed by a SELECT; the conflict FIFO holds no where() here (a where() before on_conflict is the
+                # SELECT's, after it the conflict target's: the known call-time routing)
+                c = [{"m": "on_conflict", "a": [self.ch(COLS)]},
+                     {"m": "do_update", "a": [self.ch(COLS), self.ch([1, "v"])]} if self.p(0.6) else {"m": "do_nothing", "a": []}]
+                A.append({"group": "conflict", "calls": c})
+                if self.p(0.5):
+                    # keep the SELECT's WHERE, delivered before the conflict calls as part of the same FIFO
+                    w = [a for a in A if a["group"] == "where"]
+                    if w:
+                        A[-1]["calls"] = w[0]["calls"] + A[-1]["calls"]
+                A = [a for a in A if a["group"] != "where"]
+            if self.p(0.2):
+                A.append({"group": "orderby", "calls": [self.order_call(TB)]})
         else:
             rows = [{"m": self.ch(["insert", "insert", "insert", "replace"]), "a": [self.val(), self.val()]}
                     for _ in range(self.rng.randint(1, 3))]
+            if self.p(0.15):  # several rows in one call
+                rows.append({"m": "insert", "a": [{"t": "v", "k": "tuple", "v": [1, "r"]}, {"t": "v", "k": "tuple", "v": [2, "s"]}]})
             A.append({"group": "rows", "calls": rows})
             if cls in ("Query", "PostgreSQLQuery", "SQLLiteQuery", "MySQLQuery") and self.p(0.5):
                 c = []
@@ -302,13 +393,19 @@ class G:
                     # where() as an actor of its own next to the conflict FIFO (which then holds no where itself)
                     c[:] = [x for x in c if x["m"] != "where"]
                     A.append({"group": "xwhere", "calls": [{"m": "where", "a": [self.crit(TA)]}]})
+        if self.p(0.12):
+            A.append({"group": "with", "calls": [{"m": "with_", "a": [self.subq(cls), "cte1"]}]})
         if cls == "PostgreSQLQuery" and self.p(0.4):
-            A.append({"group": "returning", "calls": [{"m": "returning", "a": [self.ch([F(TA, "id"), "*", F(TA, "x")])]}
-                                                       for _ in range(self.rng.randint(1, 2))]})
+            A.append({"group": "returning", "calls": [{"m": "returning", "a": [self.ch(
+                [F(TA, "id"), "*", F(TA, "x"), "y", {"t": "star", "tbl": TA},
+                 {"t": "bin", "op": "add", "l": F(TA, "x"), "r": 1}, 7])]}
+                for _ in range(self.rng.randint(1, 2))]})
         return A
 
     def k_update(self, cls, mode):
-        A = [{"group": "set", "calls": [{"m": "set", "a": [self.ch(COLS) if self.p(0.5) else F(TA, self.ch(COLS)), self.val()]}
+        A = [{"group": "set", "calls": [{"m": "set", "a": [self.ch(COLS) if self.p(0.5) else F(TA, self.ch(COLS)),
+                                                           self.val() if self.p(0.8) else
+                                                           {"t": "bin", "op": "add", "l": F(TA, self.ch(COLS)), "r": 1}]}
                                         for _ in range(self.rng.randint(1, 3))]}]
         if self.p(0.7):
             A.append({"group": "where", "calls": [{"m": "where", "a": [self.crit(TA)]} for _ in range(self.rng.randint(1, 2))]})
@@ -321,7 +418,7 @@ class G:
         if cls in ("MySQLQuery", "PostgreSQLQuery", "SQLLiteQuery") and self.p(0.3):
             A.append({"group": "page", "calls": [{"m": "limit", "a": [self.ch([1, 5])]}]})
         if cls == "PostgreSQLQuery" and self.p(0.4):
-            A.append({"group": "returning", "calls": [{"m": "returning", "a": [F(TA, "id")]}]})
+            A.append({"group": "returning", "calls": [{"m": "returning", "a": [self.ch([F(TA, "id"), "id", "*"])]}]})
             if mode == "cross" and self.p(0.7):
                 A = [a for a in A if a["group"] != "returning"]
                 A.append({"group": "xreturning", "calls": [{"m": "returning", "a": [F(TB, "y")]}]})
@@ -347,10 +444,17 @@ class G:
             A.append({"group": "orderby", "calls": [self.order_call(TA)]})
             A.append({"group": "page", "calls": [{"m": "limit", "a": [self.ch([1, 5])]}]})
         if cls == "PostgreSQLQuery" and self.p(0.5):
-            A.append({"group": "returning", "calls": [{"m": "returning", "a": [self.ch([F(TA, "id"), "*"])]}]})
+            A.append({"group": "returning", "calls": [{"m": "returning", "a": [self.ch([F(TA, "id"), "*", "x"])]}]})
         return A
 
     def k_create(self, cls, mode):
+        if self.p(0.15):
+            # CREATE TABLE ... AS SELECT: as_select() instead of columns()
+            A = [{"group": "as_select", "calls": [{"m": "as_select", "a": [self.subq(cls)]}]}]
+            for flag in ["temporary", "if_not_exists"] + (["unlogged"] if cls == "PostgreSQLQuery" else []):
+                if self.p(0.3):
+                    A.append({"group": flag, "calls": [{"m": flag, "a": []}]})
+            return A
         A = [{"group": "columns", "calls": [{"m": "columns", "a": [self.col() for _ in range(self.rng.randint(1, 2))]}
                                             for _ in range(self.rng.randint(1, 3))]}]
         if self.p(0.4):
@@ -397,11 +501,16 @@ class G:
         if self.p(0.5):
             q3 = {"t": "meth", "x": {"t": "meth", "x": {"t": "cls", "name": cls}, "m": "from_", "a": [TC]}, "m": "select",
                   "a": [F(TC, "x"), F(TC, "y")]}
-            A.append({"group": "operands", "calls": [{"m": self.ch(["union", "union_all", "intersect"]), "a": [q3]}
+            ops = ["union", "union_all", "intersect", "except_of"] + (["minus"] if cls in ("OracleQuery", "Query") else [])
+            A.append({"group": "operands", "calls": [{"m": self.ch(ops), "a": [q3]}
                                                       for _ in range(self.rng.randint(1, 2))]})
         if self.p(0.3):
             A.append({"group": "alias", "calls": [{"m": "as_", "a": ["u1"]}]})
         return A
+
+    def k_load(self, cls, mode):
+        return [{"group": "load", "calls": [{"m": "load", "a": ["/tmp/f.csv"]}]},
+                {"group": "into", "calls": [{"m": "into", "a": [self.ch(["t_load", TA])]}]}]
 
     def k_drop(self, cls, mode):
         return [{"group": "if_exists", "calls": [{"m": "if_exists", "a": []}]}] if self.p(0.7) else []
@@ -508,6 +617,16 @@ def outcome(prog, merge, okw):
     return final_obs(head, okw)
 
 
+def call_label(c):
+    """Method name, qualified where one method has situations with different semantics (a join of the FROM table
+    to itself triggers the automatic "<name>2" alias)."""
+    if c["m"] == "join":
+        it = c.get("item")
+        if isinstance(it, dict) and it.get("t") == "table" and it.get("name") == TA["name"] and not it.get("alias"):
+            return "join[self]"
+    return c["m"]
+
+
 def find_pair(prog, bad_merge, okw, ref):
     """Walk from the failing merge to the canonical one by adjacent transpositions of calls of different
     actors; the first transposition that changes the outcome names the non-commuting pair of methods."""
@@ -537,7 +656,7 @@ def find_pair(prog, bad_merge, okw, ref):
                 if out != cur_out:
                     c1 = prog["actors"][ks[i][0]]["calls"][ks[i][1]]
                     c2 = prog["actors"][ks[i + 1][0]]["calls"][ks[i + 1][1]]
-                    return sorted([c1["m"], c2["m"]]), cur, nxt
+                    return sorted([call_label(c1), call_label(c2)]), cur, nxt
                 cur, cur_out = nxt, out
                 swapped = True
                 break
@@ -622,8 +741,9 @@ def order_table(cls, kind):
     if kind == "delete":
         return ["WITH", "DELETE"] + sel_tail + ["RETURNING"]
     if kind == "create":
-        return ["CREATE", "WITH SYSTEM VERSIONING"]
-    if kind == "setop":
+        # SQLite's CREATE TABLE ... AS SELECT has no parentheses: the select's clauses are top-level there
+        return ["CREATE", "SELECT"] + sel_tail + ["WITH SYSTEM VERSIONING"]
+    if kind in ("setop", "load"):
         return None
     return ["DROP"]
 
@@ -690,8 +810,10 @@ def expect_complete(prog, ms):
         has_entry = ms[need] > 0
     else:
         has_entry = True
+    if k == "load":
+        return ms["load"] > 0 and ms["into"] > 0
     if k == "select":
-        return ms["select"] > 0  # SELECT without FROM renders too
+        return ms["select"] > 0 or entry_m == "select"  # SELECT without FROM renders too
     if k == "insert":
         return has_entry and (ms["insert"] + ms["replace"] > 0 or ms["select"] > 0)
     if k == "update":
@@ -699,7 +821,7 @@ def expect_complete(prog, ms):
     if k == "delete":
         return ms["delete"] > 0 or prog["entry"].get("m") == "delete"
     if k == "create":
-        return ms["columns"] > 0
+        return ms["columns"] > 0 or ms["as_select"] > 0
     return True  # drop, delete, set operations are complete from their entry point on
 
 
@@ -788,8 +910,11 @@ def accumulation(prog, L, okw, stats):
             idx = [i for i, c in enumerate(actor["calls"]) if c["m"] == m]
             if len(idx) < 2:
                 continue
-            if m == "select" and any(isinstance(x, str) and x == "*" for c in actor["calls"] for x in c.get("a", [])):
-                continue
+            if m == "select" and prog["entry"].get("m") == "select":
+                continue  # the entry point's own select item is part of every partial statement
+            if m == "select" and any((isinstance(x, str) and x == "*") or (isinstance(x, dict) and x.get("t") == "star")
+                                     for c in actor["calls"] for x in c.get("a", [])):
+                continue  # a star absorbs other items (documented), judged by commutation only
             # full statement vs statements in which only ONE unit of this clause is delivered; a unit is one call,
             # or (GROUP BY) a maximal run of adjacent non-MySQL rollup() calls, which by documentation merge into one item
             units = [[i] for i in idx]
